@@ -1,7 +1,7 @@
 (** C19 — every reported source position lies inside the source and is self-consistent.
     Property theorems only; every proof is [exact lemma]. *)
 From Coq Require Import List NArith Bool.
-From UV Require Import Model.Lex Proofs.Lex.
+From UV Require Import Model.Lex Proofs.Lex Proofs.LexGuardSpan.
 Import ListNotations.
 Open Scope N_scope.
 
@@ -69,11 +69,56 @@ Theorem C19_line_saturation_assert_refuted_pre :
   exists i k1 k2, fits32 i /\ Nat.leb k1 k2 = true /\ Nat.leb k2 (length i) = true /\
     make_span_ok (loc_at i k1) (loc_at i k2) = false.
 Proof. exact line_saturation_assert_refuted_pre. Qed.
-Theorem C19_escape_split_refuted :
+Theorem C19_escape_split_refuted_pre :
   exists i acts, fits32 i /\ disc (run i acts) = true /\ asserts (run i acts) = true /\
     exists t, In t (toks (run i acts)) /\ loc_of_prefix i (byte_pos (snd t)) <> Some (snd t).
-Proof. exact escape_split_refuted. Qed.
+Proof. exact escape_split_refuted_pre. Qed.
 
+
+(** split identifiers, current code (d7485e2): every token end is looked up among the
+    positions the lexer has been at, so the path is a sequence of primitive actions
+    ([split_actions]) and its tokens are valid spans of the ORIGINAL text *)
+Theorem C19_split_tokens_valid : forall i pre i0 ends c rest se, fits32 i -> fits16 i -> split_free pre = true ->
+  disc (run i (pre ++ split_actions i0 ends c rest)) = true ->
+  In se (toks (run i (pre ++ split_actions i0 ends c rest))) -> valid_span i se.
+Proof. exact split_tokens_valid. Qed.
+Theorem C19_split_tokens_valid_guarded : forall i pre i0 ends c rest se, fits32 i -> accepted i = true -> split_free pre = true ->
+  disc (run i (pre ++ split_actions i0 ends c rest)) = true ->
+  In se (toks (run i (pre ++ split_actions i0 ends c rest))) -> valid_span i se.
+Proof. exact split_tokens_valid_guarded. Qed.
+(** the former failing inputs under the current code *)
+Theorem C19_escape_split_current :
+  let acts := [AConsume; AConsume; AConsume; AConsume] ++ split_actions 4 [0%nat] 0 false in
+  disc (run esc_pi acts) = true /\ asserts (run esc_pi acts) = true /\
+  toks (run esc_pi acts) = [(loc0, mkLoc 1 5 4 4)] /\ forallb (span_ok esc_pi) (toks (run esc_pi acts)) = true.
+Proof. exact escape_split_current. Qed.
+Theorem C19_combining_split_current :
+  let acts := [AConsume] ++ split_actions 1 [] 0 true in
+  disc (run comb_r acts) = true /\ toks (run comb_r acts) = [(loc0, mkLoc 1 3 3 1)] /\
+  forallb (span_ok comb_r) (toks (run comb_r acts)) = true.
+Proof. exact combining_split_current. Qed.
+(** record of the old arithmetic (before d7485e2) on a combining mark; the escape record is
+    C19_escape_split_refuted_pre above *)
+Theorem C19_combining_split_refuted_pre :
+  exists i acts, fits32 i /\ disc (run i acts) = true /\
+    exists t, In t (toks (run i acts)) /\ loc_of_prefix i (byte_pos (snd t)) = None.
+Proof. exact combining_split_refuted_pre. Qed.
+
+(** the span of the size guard's error (current code d674421): start = the specified Loc of
+    the offending line's start, end = one segment further (empty on an empty line) *)
+Theorem C19_guard_err_span_valid : forall pre first tail,
+  fits32 (pre ++ tail) -> last_line (concat pre) = [] ->
+  (first = [] \/ exists r, tail = first :: r) -> filter is_nl first = [] ->
+  line_of (concat pre) <= U16MAX -> 1 + nonl_noncr first <= U16MAX ->
+  guard_err_span pre first =
+    (spec_loc (pre ++ tail) (length pre),
+     spec_loc (pre ++ tail) (length pre + match first with [] => 0 | _ => 1 end)).
+Proof. exact guard_err_span_valid. Qed.
+Theorem C19_guard_err_span_refuted_pre :
+  exists pre first tail, tail = first :: [] /\ last_line (concat pre) = [] /\
+    fst (guard_err_span_pre pre first) <> spec_loc (pre ++ tail) (length pre) /\
+    fst (guard_err_span pre first) = spec_loc (pre ++ tail) (length pre).
+Proof. exact guard_err_span_refuted_pre. Qed.
 
 (** the formatter's end_loc (output side of the glyph map): after 54c7366 the column is the
     true column clamped at 65535 (exact up to 65535, never beyond the true place); the old
@@ -110,7 +155,7 @@ Print Assumptions C19_loc_at_sat_spec.
 Print Assumptions C19_loc_spec.
 Print Assumptions C19_saturation_refuted_pre.
 Print Assumptions C19_line_saturation_assert_refuted_pre.
-Print Assumptions C19_escape_split_refuted.
+Print Assumptions C19_escape_split_refuted_pre.
 Print Assumptions C19_lexer_asserts_hold.
 Print Assumptions C19_spans_ordered.
 Print Assumptions C19_lexer_spans_valid.
@@ -124,3 +169,10 @@ Print Assumptions C19_end_loc_col_clamped.
 Print Assumptions C19_end_loc_others_exact.
 Print Assumptions C19_end_loc_wrap_refuted_pre.
 Print Assumptions C19_end_loc_saturation_refuted.
+Print Assumptions C19_split_tokens_valid.
+Print Assumptions C19_split_tokens_valid_guarded.
+Print Assumptions C19_escape_split_current.
+Print Assumptions C19_combining_split_current.
+Print Assumptions C19_combining_split_refuted_pre.
+Print Assumptions C19_guard_err_span_valid.
+Print Assumptions C19_guard_err_span_refuted_pre.
